@@ -26,6 +26,15 @@ Lemma config_private :
   site_private "security.SecurityManager.ServerHandshake" = true.
 Proof. vm_compute. auto. Qed.
 
+(* every config-returning hook installed on an Authenticator hands over a
+   per-connection copy; the server's per-command hook is present (non-vacuity) *)
+Lemma config_hooks_private :
+  forallb hook_private hook_sites = true /\
+  existsb (fun h => String.eqb (hs_fn h) "server.Server.ServeConn" &&
+                    String.eqb (hs_field h) "Authenticator.ServerConfigForCommand" &&
+                    match hs_kind h with HookCopy => true | _ => false end) hook_sites = true.
+Proof. vm_compute. auto. Qed.
+
 Lemma broker_serialised : forallb broker_ok broker_io = true /\
   existsb (fun b => match bf_origin b with SField => String.eqb (bf_callee b) "WriteControlAd" | _ => false end) broker_io = true.
 Proof. vm_compute. auto. Qed.
